@@ -263,6 +263,9 @@ func runC01(c *mc.Ctx) {
 			h160 = append(h160, ch.Hash)
 			found[ch.Class]++
 		}
+		// ... and hashes whose bare CashAddr string is ALSO valid Base58Check (fixtures found by tools/dualformat)
+		h160 = append(h160, dualFormatHashes()...)
+		c.Note("dual_format_strings", len(dualFormatFixtures))
 		c.Note("legacy_strings_inside_a_character_class", found)
 		if len(found) < 4 {
 			c.NotExhaustive("the search for legacy strings inside character classes found fewer than four classes")
